@@ -1,6 +1,7 @@
 import GridVerif.Props.C09
 import GridVerif.Props.C09.Example
 import GridVerif.Props.C09.Gen
+import GridVerif.Props.C09.Gen2
 
 #print axioms GridVerif.C09.reweighted_sum_is_integral
 #print axioms GridVerif.C09.angular_integral_exact
@@ -27,3 +28,18 @@ import GridVerif.Props.C09.Gen
 #print axioms GridVerif.C09.gen_reweighted_sum_is_integral
 #print axioms GridVerif.C09.gen_angular_integral_exact
 #print axioms GridVerif.C09.gen_components_recovered
+#print axioms GridVerif.C09.gen_cartToSph_eq_model
+#print axioms GridVerif.C09.gen_convDeriv_eq_model
+#print axioms GridVerif.C09.gen_convert_points
+#print axioms GridVerif.C09.gen_convert_points_flat
+#print axioms GridVerif.C09.gen_convert_rejects
+#print axioms GridVerif.C09.gen_convert_atomic
+#print axioms GridVerif.C09.gen_basis_angles_eq_model
+#print axioms GridVerif.C09.gen_interpolate_low_eq_model
+#print axioms GridVerif.C09.gen_mol_low_eq_model
+#print axioms GridVerif.C09.gen_mol_low_empty
+#print axioms GridVerif.C09.gen_defaults
+#print axioms GridVerif.C09.gen_default_call_is_value
+#print axioms GridVerif.C09.gen_mol_interp_is_sum
+#print axioms GridVerif.C09.gen_integrate_window
+#print axioms GridVerif.C09.gen_convert_atomic_window
